@@ -455,7 +455,9 @@ def blockwise(
         arginds = zip(arrays, inds)
 
         chunkss = {}
-        # For each dimension, use the input chunking that has the most blocks;
+        # For each dimension, use the input chunking that has the most blocks
+        # (and, for the same number of blocks, the larger extent, so that a
+        # dimension of size one never wins over the one it is broadcast against);
         # this will ensure that broadcasting works as expected, and in
         # particular the number of blocks should be correct if the inputs are
         # consistent.
@@ -464,7 +466,11 @@ def blockwise(
                 arg.chunks, shape=arg.shape, dtype=arg.dtype
             )  # have to normalize zarr chunks
             for c, i in zip(arg_chunks, ind):
-                if i not in chunkss or len(c) > len(chunkss[i]):
+                if (
+                    i not in chunkss
+                    or len(c) > len(chunkss[i])
+                    or (len(c) == len(chunkss[i]) and sum(c) > sum(chunkss[i]))
+                ):
                     chunkss[i] = c
 
     for k, v in new_axes.items():
